@@ -6,11 +6,15 @@ combinations and order seeds; for every argument some run reports valid, TLC
 (C01_Sound.tla + Models.tla) searches the spec's semantics for a counter-model
 within bounds chosen under a model budget.  Violations carry a root cause
 (proofs.root_cause) so that known findings match on the defect, not the property.
+Pipeline A': full traces of corpus proofs are validated step by step against the
+operational model built from the extracted rule table (TraceMC.tla): every real
+step must be a table step on the branch as it was.
 """
 import json
 
 import common as C
 import proofs as P
+import tracemc
 
 VAL_CFG = "SPECIFICATION Spec\nINVARIANT Publish\nPOSTCONDITION Post\nCHECK_DEADLOCK FALSE\n"
 
@@ -19,7 +23,7 @@ def run(rep):
     rep.group_keys = ('clause', 'logic_family', 'root')
     d = C.subdir('c01')
     thorough = rep.tier == 'thorough'
-    budget = 2_000_000 if thorough else 150_000
+    budget = 900_000 if thorough else 150_000      # TLC refuses to build sets of more than 1 000 000 elements
     jobs = P.corpus_jobs(rep.seed, 150 if thorough else 24, 'c01', 'verdict', orders=8 if thorough else 2, max_steps=200,
                          systematic=True)
     outs = P.run_jobs(jobs, 'c01')
@@ -62,7 +66,14 @@ def run(rep):
                            'root': f['witness'], 'logic': f['logic'], 'argstr': f['argstr']}, f)
     if total != len(cases):
         raise C.MachineryError('C01: TLC validated a different number of cases')
-    rep.cov['evaluations'] = nproofs
+    # pipeline A': every step of recorded proofs is a step of the operational rule-table model (TraceMC.tla).  The rules
+    # of the table are validated sound one by one (C04); that the prover applies them AS TABLED in context -- fresh
+    # witnesses, instances only for present constants / accessible worlds, frame pairs only where the class calls for
+    # them, nodes at the right world -- is the other half of the soundness induction.
+    tjobs = P.corpus_jobs(rep.seed + 1, 40 if thorough else 6, 'c01t', 'full', orders=4 if thorough else 2, max_steps=120,
+                          systematic=thorough)
+    tracemc.validate(rep, P.read_records(P.run_jobs(tjobs, 'c01t')), d, 'c01')
+    rep.cov['evaluations'] = nproofs + rep.cov['trace_model_steps']
     rep.cov['proofs'] = nproofs
     rep.cov['outcomes'] = outcomes
     rep.cov['valid_arguments_checked'] = len(by_arg) - unsearched
